@@ -59,7 +59,7 @@ DEFAULT_PROFILE = dict(
     args=('R', 'R', 'L'),          # argument types of f (may be overridden per program)
     max_stmts=9, max_depth=3, expr_depth=3,
     w_assign=5, w_aug=2, w_tuple=1, w_index_assign=2, w_if=3, w_if1=2, w_for=3, w_while=1, w_with=3,
-    w_assert=0.5, w_early_return=1, w_alias=1, w_listdef=1.5, w_call=1.5, w_copy=1, w_const=1,
+    w_assert=0.5, w_early_return=1, w_alias=1, w_listdef=1.5, w_call=1.5, w_copy=1, w_const=1, w_tuplelist=0,
     helpers=2, helper_ctx_prob=0.4, mutate_helper_prob=0.4,
     real_ops=('+', '-', '*', '/', 'neg', 'abs', 'sqrt', 'fma', 'min', 'max', 'round', 'floor', 'ceil', 'trunc', 'ifexpr', 'index', 'len', 'sum', 'call'),
     contexts=CONTEXTS, computed_ctx_prob=0.15, as_alias_prob=0.2,
@@ -197,6 +197,18 @@ class Gen:
                 return f'sum({rng.choice(ls)})'
             return a()
         if op == 'call':
+            mh = [h for h in self.helpers if h[2] == 'R' and h[3] and h[1] == ('L', 'R')]
+            if mh and sc.of('L') and not self.in_helper and rng.random() < self.p.get('mutating_call_in_expr_prob', 0):
+                # a call that writes its list argument, next to operands that read the same list
+                h = rng.choice(mh)
+                xs = rng.choice(sc.of('L'))
+                self.need_len(self._root(xs), 1)
+                self.need_len(xs, 1)
+                self.features.add('call')
+                self.features.add('call_mutates_in_expr')
+                if self.in_derived_iter:
+                    self.features.add('derived_iter_body_writes')
+                return f'{h[0]}({xs}, {a()})'
             hs = [h for h in self.helpers if h[2] == 'R' and not h[3] and all(t == 'R' for t in h[1])]
             if hs and (not self.in_helper or self.p.get('helper_chain')):
                 h = rng.choice(hs)
@@ -291,7 +303,8 @@ class Gen:
         rng = self.rng
         choices = [(p['w_assign'], 'assign'), (p['w_aug'], 'aug'), (p['w_tuple'], 'tuple'), (p['w_listdef'], 'listdef'),
                    (p['w_index_assign'], 'idxassign'), (p['w_assert'], 'assert'), (p['w_alias'], 'alias'),
-                   (p.get('w_copy', 0), 'copy'), (p.get('w_const', 0), 'const'), (p.get('w_freevar', 0), 'freevar')]
+                   (p.get('w_copy', 0), 'copy'), (p.get('w_const', 0), 'const'), (p.get('w_freevar', 0), 'freevar'),
+                   (p.get('w_tuplelist', 0), 'tuplelist')]
         if depth > 0:
             choices += [(p['w_if'], 'if'), (p['w_if1'], 'if1'), (p['w_for'], 'for'), (p['w_while'], 'while'), (p['w_with'], 'with'),
                         (p['w_early_return'], 'early')]
@@ -386,6 +399,74 @@ class Gen:
             self.emit(ind, f'{a}, {b} = ({self.real(sc, 2)}, {self.real(sc, 2)})')
         new.vars[a] = 'R'
         new.vars[b] = 'R'
+        return new
+
+    def s_tuplelist(self, sc, ind, depth):
+        """a tuple that holds a list next to a scalar (or another list); the list is pulled out by destructuring,
+        written through that alias and read back through the tuple"""
+        rng = self.rng
+        new = _Scope(sc)
+        self.features.add('tuple_holding_list')
+        self._alias_of = getattr(self, '_alias_of', {})
+
+        def const_list():
+            n = rng.choice([1, 2, 2, 3])
+            return '[' + ', '.join(self.lit() for _ in range(n)) + ']', n
+
+        def comp():
+            r = rng.random()
+            if r < 0.55:
+                text, n = const_list()
+                return 'L', text, n, None
+            if r < 0.8 and sc.of('L'):
+                src = rng.choice(sc.of('L'))
+                return 'L', src, self.list_len.get(src), src
+            if r < 0.9:
+                text, n = self.listexpr(sc, 1)
+                return 'L', text, n, (text if text in sc.vars else None)
+            return 'L', *const_list(), None
+
+        shape = rng.choice(['LR', 'LR', 'RL', 'LL'])
+        parts = []
+        for ch in shape:
+            if ch == 'L':
+                parts.append(comp())
+            else:
+                parts.append(('R', self.lit() if rng.random() < 0.6 else self.real(sc, 1), None, None))
+        t = self.fresh('t')
+        self.emit(ind, f'{t} = ({", ".join(pt[1] for pt in parts)})')
+        new.vars[t] = 'T' + shape
+
+        def destructure():
+            names = []
+            for pt in parts:
+                if pt[0] == 'L':
+                    v = self.fresh('ys')
+                    new.vars[v] = 'L'
+                    self.list_len[v] = pt[2]
+                    if pt[3] is not None:
+                        self._alias_of[v] = pt[3]
+                    names.append(v)
+                else:
+                    v = self.fresh('v')
+                    new.vars[v] = 'R'
+                    names.append(v)
+            self.emit(ind, f'{", ".join(names)} = {t}')
+            return names
+
+        first = destructure()
+        for nm, pt in zip(first, parts):
+            if pt[0] == 'L' and (pt[2] is None or pt[2] >= 1) and rng.random() < 0.8:
+                if pt[2] is None:
+                    self.need_len(self._root(nm), 1)
+                    self.need_len(nm, 1)
+                self.emit(ind, f'{nm}[0] = {self.real(new, 1)}')
+                self.features.add('tuple_list_written_through_alias')
+        if rng.random() < 0.8:
+            second = destructure()
+            for a, b, pt in zip(first, second, parts):
+                if pt[0] == 'L':
+                    self._alias_of[b] = a
         return new
 
     def s_listdef(self, sc, ind, depth):
@@ -529,14 +610,19 @@ class Gen:
         body = _Scope(sc)
         ls = sc.of('L')
         k = rng.random()
+        rebind = None
         if ls and k < 0.4:
             x = self.fresh('e')
             if sc.of('R') and rng.random() < self.p.get('shadow_target_prob', 0.15):
                 # the loop target shadows (rebinds) an outer variable
                 x = rng.choice(sc.of('R'))
                 self.features.add('for_target_shadows')
-            self.emit(ind, f'for {x} in {rng.choice(ls)}:')
+            it = rng.choice(ls)
+            self.emit(ind, f'for {x} in {it}:')
             body.vars[x] = 'R'
+            if self.p['comprehension'] and rng.random() < self.p.get('loop_rebinds_iterable_prob', 0):
+                # the body rebinds the variable it iterates over (to a list of the same length)
+                rebind = f'{it} = [{rng.choice([f"({x} + q0)", "q0", "(q0 * 2)", f"max(q0, {x})"])} for q0 in {it}]'
         elif ls and k < 0.55 and self.p['zip_enum']:
             i, x = self.fresh('i'), self.fresh('e')
             self.features.add('enumerate')
@@ -577,6 +663,9 @@ class Gen:
             # the body rebinds an integer argument (a loop operator may have been handed it as a chunk size)
             self.emit(ind + 1, f'{rng.choice(sc.of("I"))} = {rng.choice([1, 2, 3])}')
             self.features.add('loop_writes_int_arg')
+        if rebind is not None:
+            self.emit(ind + 1, rebind)
+            self.features.add('loop_rebinds_iterable')
         self.loop_depth += 1
         self.in_derived_iter += 1 if derived else 0
         self.block(body, ind + 1, depth - 1, 3)
